@@ -485,6 +485,9 @@ Definition pure_same_window (t : tcp) (sg : seg) : Prop :=
   plogicalLen (s_flags sg) (s_data sg) = 0 /\
   u32 (Z.shiftl (s_wnd sg) (sndWndScale (SN t))) = sndWnd (SN t).
 
+Lemma abortOnReset_ackonly t : ackonly t (abortOnReset t).
+Proof. apply ackonly_silent; reflexivity. Qed.
+
 Lemma handleSegment_spec t sg r idle : 0 <= maxPayload (SN t) ->
   let t' := handleSegment t sg r idle in
   emits (fun f => frame_ok t' f \/ pure_same_window t sg) t t' /\ cfg_same t t'.
@@ -494,7 +497,7 @@ Proof.
   { split; [apply emits_refl|split; reflexivity]. }
   destruct (has (s_flags sg) fRst).
   { destruct (acceptable _ _ _).
-    - pose proof (resetConnection_ackonly t) as A. split; [apply ackonly_emits_ok; exact A|].
+    - pose proof (abortOnReset_ackonly t) as A. split; [apply ackonly_emits_ok; exact A|].
       apply snd_same_cfg, ackonly_snd_same, A.
     - assert (A : ackonly t (loopExit (if negb (rcvNxt (RC t) =? maxSentAck (SN t)) then sendAck t else t))).
       { eapply ackonly_trans; [|apply loopExit_ackonly].
